@@ -562,6 +562,7 @@ func writeEvidence(root, id, tier string, seed int, cs *CheckSpec, results []*Jo
 		Missing     []string          `json:"cover_labels_missing,omitempty"`
 		Functions   []string          `json:"functions_encoded"`
 		Redirects   map[string]string `json:"redirect_stubs,omitempty"`
+		RedirNever  []string          `json:"redirect_stubs_never_called,omitempty"`
 		RedirUsed   map[string]int    `json:"redirect_stub_calls,omitempty"`
 		Unmodelled  map[string]int    `json:"unmodelled_calls_havoced,omitempty"`
 		Assumes     []string          `json:"assumes"`
@@ -583,6 +584,12 @@ func writeEvidence(root, id, tier string, seed int, cs *CheckSpec, results []*Jo
 		if je.Bounds == "" {
 			je.Bounds = r.Spec.Bounds["all"]
 		}
+		for callee := range r.Spec.Redirects {
+			if r.RedirUsed[callee] == 0 {
+				je.RedirNever = append(je.RedirNever, callee)
+			}
+		}
+		sort.Strings(je.RedirNever)
 		for c := range r.Covers {
 			je.Covers = append(je.Covers, c)
 		}
